@@ -26,7 +26,7 @@ fn strip_csv_keys(r: &Value) -> Value {
 
 /// one file sink: the bytes of its file against the expected (isolated) and the returned responses
 #[allow(clippy::too_many_arguments)]
-fn judge_sink(out: &crate::world::OutFile, earlier_csv: &[Vec<(String, Value)>], data: &Option<Vec<u8>>, si: usize, expected_ref: &[Value], returned_search: &[Value], all_ok: bool, relaxed: bool, hard_fired: u64, any_csv: bool, persist: bool, v: &mut Vec<Violation>, bump: &mut dyn FnMut(&str, u64)) {
+fn judge_sink(out: &crate::world::OutFile, lowercased: bool, earlier_csv: &[Vec<(String, Value)>], data: &Option<Vec<u8>>, si: usize, expected_ref: &[Value], returned_search: &[Value], all_ok: bool, relaxed: bool, hard_fired: u64, any_csv: bool, persist: bool, v: &mut Vec<Violation>, bump: &mut dyn FnMut(&str, u64)) {
     let data = match data {
         Some(d) => d.clone(),
         None => {
@@ -121,7 +121,7 @@ fn judge_sink(out: &crate::world::OutFile, earlier_csv: &[Vec<(String, Value)>],
             }
             let header_cells = recs.remove(0);
             let header: String = header_cells.iter().map(|c| match c { Cell::Text(t) => t.clone(), Cell::Json(Value::String(t)) => t.clone(), Cell::Json(j) => j.to_string() }).collect::<Vec<_>>().join(",");
-            let cols = match csv_columns_from_header(&out.format, &header) {
+            let cols = match csv_columns_from_header(&out.format, &header, lowercased) {
                 Ok(c) => c,
                 Err(e) => {
                     if relaxed {
@@ -310,7 +310,8 @@ pub fn judge(case: &Case, obs: &Obs) -> (Vec<Violation>, BTreeMap<String, u64>, 
             continue;
         }
         let before = v.len();
-        judge_sink(sink, &earlier_csv, data, si, &exp_sink, &ret_sink, all_ok, relaxed, hard_fired, any_csv, persist, &mut v, &mut bump);
+        let lowercased = !(case.world.policies_at_run_level || case.world.per_run_sinks.is_some());
+        judge_sink(sink, lowercased, &earlier_csv, data, si, &exp_sink, &ret_sink, all_ok, relaxed, hard_fired, any_csv, persist, &mut v, &mut bump);
         if hard_read_fired > 0 {
             // a failed read of the query file may cost the row that was being read - one query per fault, never more,
             // and never anything else
